@@ -994,7 +994,7 @@ func scItemsSx(tag string, items []scItem) sx.S {
 // observed: (loads (r accepted|rejected (cites..) msg (same sdl intro resp) (view item...) (ops..))...)
 func scExec(input sx.S) sx.S {
 	l := sx.List(input)
-	if l[0].(string) != "docs" {
+	if l[0].(string) != "docs" && l[0].(string) != "wfdocs" {
 		panic("docs expected")
 	}
 	root := ggql.NewRoot(scProbe{})
@@ -1054,7 +1054,7 @@ func scExec(input sx.S) sx.S {
 
 func scValid(input sx.S) bool {
 	l := sx.List(input)
-	if l[0].(string) != "docs" {
+	if l[0].(string) != "docs" && l[0].(string) != "wfdocs" {
 		return false
 	}
 	for _, d := range l[1:] {
